@@ -96,7 +96,13 @@ fn srcmap(db: &Db, root: &Path) -> Value {
 
 fn event(dir: &Path, e: &Value) -> DebouncedEvent {
     let abs = |p: &str| -> PathBuf {
-        if p == "schema" { dir.join("schema.graphql") } else { dir.join(p) }
+        if p == "schema" {
+            dir.join("schema.graphql")
+        } else if p == "schema.tmp" {
+            dir.join("schema.graphql.tmp")
+        } else {
+            dir.join(p)
+        }
     };
     let k = e["k"].as_str().unwrap();
     let p = abs(e["p"].as_str().unwrap());
@@ -113,6 +119,9 @@ fn event(dir: &Path, e: &Value) -> DebouncedEvent {
         "rename" => Event::new(EventKind::Modify(ModifyKind::Name(RenameMode::Both)))
             .add_path(p)
             .add_path(abs(e["q"].as_str().unwrap())),
+        // one half of a rename whose other half is outside of the watched paths
+        "rename_to" => Event::new(EventKind::Modify(ModifyKind::Name(RenameMode::To))).add_path(p),
+        "rename_from" => Event::new(EventKind::Modify(ModifyKind::Name(RenameMode::From))).add_path(p),
         other => panic!("harness: unknown event kind {other}"),
     };
     DebouncedEvent::new(ev, Instant::now())
@@ -139,6 +148,39 @@ fn edit(dir: &Path, op: &Value, serial: usize) {
             fs::write(dir.join("schema.graphql"), s).unwrap();
         }
         "rmschema" => fs::remove_file(dir.join("schema.graphql")).unwrap(),
+        // moves across the boundary of the watched paths (`outside` is a sibling of `src`), atomic saves
+        "movein" => {
+            let p = op["p"].as_str().unwrap();
+            let out = dir.join("outside").join(format!("in{serial}.ts"));
+            fs::create_dir_all(out.parent().unwrap()).unwrap();
+            fs::write(&out, content_bytes(serial, op["c"].as_str().unwrap())).unwrap();
+            let full = dir.join(p);
+            fs::create_dir_all(full.parent().unwrap()).unwrap();
+            fs::rename(out, full).unwrap();
+        }
+        "moveout" | "moveout_dir" => {
+            let out = dir.join("outside").join(format!("out{serial}"));
+            fs::create_dir_all(out.parent().unwrap()).unwrap();
+            fs::rename(dir.join(op["p"].as_str().unwrap()), out).unwrap();
+        }
+        "movein_dir" => {
+            let out = dir.join("outside").join(format!("dir{serial}"));
+            fs::create_dir_all(&out).unwrap();
+            fs::write(out.join("x.ts"), content_bytes(serial * 10, op["c"].as_str().unwrap())).unwrap();
+            fs::write(out.join("n.md"), content_bytes(serial * 10 + 1, op["c"].as_str().unwrap())).unwrap();
+            fs::rename(out, dir.join(op["p"].as_str().unwrap())).unwrap();
+        }
+        "atomic" => {
+            let full = dir.join(op["p"].as_str().unwrap());
+            let tmp = PathBuf::from(format!("{}.tmp", full.display()));
+            fs::write(&tmp, content_bytes(serial, op["c"].as_str().unwrap())).unwrap();
+            fs::rename(tmp, full).unwrap();
+        }
+        "schema_atomic" => {
+            let s = if op["c"] == "s2" { SCHEMA_S2 } else { SCHEMA_S1 };
+            fs::write(dir.join("schema.graphql.tmp"), s).unwrap();
+            fs::rename(dir.join("schema.graphql.tmp"), dir.join("schema.graphql")).unwrap();
+        }
         "gc" => {}
         "batch" => {
             for (i, e) in op["edits"].as_array().unwrap().iter().enumerate() {
